@@ -5,8 +5,8 @@ What is proved, for ALL operation lists of the model: the heap order invariant; 
 deadline has passed (never early) and every entry whose deadline has passed is woken by the next run of the wake loop
 (never forgotten); a removed entry is not woken; `Sleep::poll` is ready exactly when `now > first poll + duration`;
 a sleep whose last poll was Pending always has an entry with its deadline on the way to / in the heap; a dropped sleep
-is silent once its `Cancel` has been processed; `block_timeout` returns `Timeout` only after a `Pending` poll and an
-exhausted duration.
+is silent once its `Cancel` has been processed; `block_timeout` returns `Timeout` only at or after `start + duration`, whatever the number of
+wake-ups, and returns the value whenever a poll is `Ready`.
 
 What is NOT modelled (lives in the OS): when threads run, `recv_timeout` / `park` latency, the wall clock. "A sleep
 completes after its deadline" therefore means: the timer thread's next service at a time past the deadline wakes it
@@ -314,89 +314,140 @@ example : ((Sys.init.run [.sleep 0 2, .poll 0, .advance 2]).step (.poll 0)).2 = 
 
 /-! ## block_timeout -/
 
-/-- C42 block_timeout returns `Timeout` only if the future did not complete: every poll it made returned `Pending`,
-    and the last one was followed by an exhausted duration (`elapsed > duration`) or by no wake-up within the
-    remaining time. -/
-theorem C42_block_timeout_sound (duration : Nat) (rs : List Round) (h : blockTimeout duration rs = .timeout) :
-    ∃ pre r post, rs = pre ++ r :: post ∧ (∀ x, x ∈ pre → x.ready = false) ∧ r.ready = false ∧
-      (duration < r.elapsed ∨ r.wakeAfter = none ∨ ∃ w, r.wakeAfter = some w ∧ duration - r.elapsed < w) := by
-  induction rs with
+/-- C42 block_timeout never times out early: for ALL wake-up sequences (any number of wake-ups, at any times),
+    `Timeout` is returned only at a time `t ≥ duration` after the start — the deadline is fixed at the start and the
+    number of wake-ups before it does not matter. -/
+theorem C42_block_timeout_no_early_timeout (duration : Nat) (ws : List (Nat × Bool)) (t : Nat)
+    (h : blockTimeout duration ws = (.timeout, t)) : duration ≤ t := by
+  induction ws with
   | nil => simp [blockTimeout] at h
-  | cons r rs ih =>
+  | cons w rest ih =>
+    obtain ⟨now, ready⟩ := w
     unfold blockTimeout at h
-    by_cases hr : r.ready = true
+    by_cases hr : ready = true
     · simp [hr] at h
-    · have hr' : r.ready = false := by simpa using hr
-      simp only [hr', Bool.false_eq_true, if_false] at h
-      by_cases he : duration < r.elapsed
-      · refine ⟨[], r, rs, rfl, ?_, hr', Or.inl he⟩
-        intro x hx; cases hx
-      · simp only [he, if_false] at h
-        cases hw : r.wakeAfter with
-        | none =>
-          refine ⟨[], r, rs, rfl, ?_, hr', Or.inr (Or.inl hw)⟩
-          intro x hx; cases hx
-        | some w =>
-          simp only [hw] at h
-          by_cases hle : w ≤ duration - r.elapsed
-          · simp only [hle, if_true] at h
-            obtain ⟨pre, r2, post, e1, e2, e3, e4⟩ := ih h
-            refine ⟨r :: pre, r2, post, by rw [e1]; rfl, ?_, e3, e4⟩
-            intro x hx
-            rcases List.mem_cons.mp hx with a | a
-            · subst a; exact hr'
-            · exact e2 x a
-          · refine ⟨[], r, rs, rfl, ?_, hr', Or.inr (Or.inr ⟨w, hw, by omega⟩)⟩
-            intro x hx; cases hx
+    · simp only [hr, Bool.false_eq_true, if_false] at h
+      by_cases hd : duration < now
+      · simp only [hd, if_true, Prod.mk.injEq, true_and] at h; omega
+      · simp only [hd, if_false] at h
+        cases rest with
+        | nil => simp only [Prod.mk.injEq, true_and] at h; omega
+        | cons w2 rest' =>
+          obtain ⟨next, r⟩ := w2
+          simp only at h
+          by_cases hn : next ≤ duration
+          · simp only [hn, if_true] at h; exact ih h
+          · simp only [hn, if_false, Prod.mk.injEq, true_and] at h; omega
 
-/-- C42 block_timeout returns the value whenever a poll is `Ready`, however late: `Ok` iff the loop reached a `Ready`
-    poll (all earlier polls `Pending`, each followed by a wake within the remaining time). -/
-theorem C42_block_timeout_ok_iff (duration : Nat) (rs : List Round) :
-    blockTimeout duration rs = .ok ↔
-      ∃ pre r post, rs = pre ++ r :: post ∧ r.ready = true ∧
-        ∀ x, x ∈ pre → x.ready = false ∧ x.elapsed ≤ duration ∧ ∃ w, x.wakeAfter = some w ∧ w ≤ duration - x.elapsed := by
-  induction rs with
-  | nil => simp [blockTimeout]
-  | cons r rs ih =>
+/-- C42 block_timeout always decides once it has polled: for every non-empty wake-up sequence the result is `Ok` or
+    `Timeout` (so `Timeout` ⇔ not `Ok`, and with `C42_block_timeout_ok_iff`: `Timeout` only if no poll it made was
+    `Ready`). -/
+theorem C42_block_timeout_decides (duration : Nat) (ws : List (Nat × Bool)) (hne : ws ≠ []) :
+    (blockTimeout duration ws).1 = .ok ∨ (blockTimeout duration ws).1 = .timeout := by
+  induction ws with
+  | nil => exact absurd rfl hne
+  | cons w rest ih =>
+    obtain ⟨now, ready⟩ := w
     unfold blockTimeout
-    by_cases hr : r.ready = true
-    · simp only [hr, if_true, true_iff]
-      refine ⟨[], r, rs, rfl, hr, ?_⟩
-      intro x hx; cases hx
-    · have hr' : r.ready = false := by simpa using hr
-      simp only [hr', Bool.false_eq_true, if_false]
+    by_cases hr : ready = true
+    · simp [hr]
+    · simp only [hr, Bool.false_eq_true, if_false]
+      by_cases hd : duration < now
+      · simp [hd]
+      · simp only [hd, if_false]
+        cases rest with
+        | nil => simp
+        | cons w2 rest' =>
+          obtain ⟨next, r⟩ := w2
+          simp only
+          by_cases hn : next ≤ duration
+          · simp only [hn, if_true]; exact ih (by simp)
+          · simp [hn]
+
+/-- C42 block_timeout returns the value whenever a poll is `Ready`: `Ok` iff the loop reaches a `Ready` poll, i.e. all
+    earlier polls were `Pending` and every wake-up up to and including the one of the `Ready` poll arrived by the
+    deadline (the very first poll happens regardless of the time). -/
+theorem C42_block_timeout_ok_iff (duration : Nat) (ws : List (Nat × Bool)) :
+    (blockTimeout duration ws).1 = .ok ↔
+      ∃ pre now post, ws = pre ++ (now, true) :: post ∧ (∀ x, x ∈ pre → x.2 = false ∧ x.1 ≤ duration) ∧
+        (pre ≠ [] → now ≤ duration) := by
+  induction ws with
+  | nil => simp [blockTimeout]
+  | cons w rest ih =>
+    obtain ⟨now, ready⟩ := w
+    by_cases hr : ready = true
+    · subst hr
+      constructor
+      · intro _
+        refine ⟨[], now, rest, rfl, ?_, ?_⟩
+        · intro x hx; cases hx
+        · intro h; exact absurd rfl h
+      · intro _; unfold blockTimeout; simp
+    · have hr' : ready = false := by simpa using hr
+      subst hr'
       constructor
       · intro h
-        by_cases he : duration < r.elapsed
-        · simp [he] at h
-        · simp only [he, if_false] at h
-          cases hw : r.wakeAfter with
-          | none => simp [hw] at h
-          | some w =>
-            simp only [hw] at h
-            by_cases hle : w ≤ duration - r.elapsed
-            · simp only [hle, if_true] at h
-              obtain ⟨pre, r2, post, e1, e2, e3⟩ := ih.mp h
-              refine ⟨r :: pre, r2, post, by rw [e1]; rfl, e2, ?_⟩
-              intro x hx
-              rcases List.mem_cons.mp hx with a | a
-              · subst a; exact ⟨hr', by omega, w, hw, hle⟩
-              · exact e3 x a
-            · simp [hle] at h
-      · rintro ⟨pre, r2, post, e1, e2, e3⟩
+        unfold blockTimeout at h
+        simp only [Bool.false_eq_true, if_false] at h
+        by_cases hd : duration < now
+        · simp [hd] at h
+        · simp only [hd, if_false] at h
+          cases rest with
+          | nil => simp at h
+          | cons w2 rest' =>
+            obtain ⟨next, r⟩ := w2
+            simp only at h
+            by_cases hn : next ≤ duration
+            · simp only [hn, if_true] at h
+              obtain ⟨pre, n2, post, e1, e2, e3⟩ := ih.mp h
+              refine ⟨(now, false) :: pre, n2, post, by rw [e1]; rfl, ?_, ?_⟩
+              · intro x hx
+                rcases List.mem_cons.mp hx with a | a
+                · subst a; exact ⟨rfl, by simp only; omega⟩
+                · exact e2 x a
+              · intro _
+                cases pre with
+                | nil =>
+                  simp only [List.nil_append, List.cons.injEq, Prod.mk.injEq] at e1
+                  omega
+                | cons p ps => exact e3 (by simp)
+            · simp [hn] at h
+      · rintro ⟨pre, n2, post, e1, e2, e3⟩
         cases pre with
-        | nil =>
-          simp only [List.nil_append, List.cons.injEq] at e1
-          rw [← e1.1, hr'] at e2; cases e2
+        | nil => simp at e1
         | cons p ps =>
           simp only [List.cons_append, List.cons.injEq] at e1
-          obtain ⟨_, hle, w, hw, hww⟩ := e3 r (by rw [e1.1]; exact List.mem_cons_self)
-          have he : ¬ duration < r.elapsed := by omega
-          simp only [he, if_false, hw, hww, if_true]
-          exact ih.mpr ⟨ps, r2, post, e1.2, e2, fun x hx => e3 x (List.mem_cons_of_mem _ hx)⟩
+          obtain ⟨e1a, e1b⟩ := e1
+          have hp := e2 p List.mem_cons_self
+          rw [← e1a] at hp
+          have hd : ¬ duration < now := by have := hp.2; simp only at this; omega
+          unfold blockTimeout
+          simp only [Bool.false_eq_true, if_false, hd]
+          -- the next element exists: it is the head of ps ++ (n2,true) :: post
+          cases ps with
+          | nil =>
+            simp only [List.nil_append] at e1b
+            subst e1b
+            have : n2 ≤ duration := e3 (by simp)
+            simp only [this, if_true]
+            unfold blockTimeout; simp
+          | cons q qs =>
+            simp only [List.cons_append] at e1b
+            subst e1b
+            obtain ⟨qn, qr⟩ := q
+            have hq := e2 (qn, qr) (List.mem_cons_of_mem _ List.mem_cons_self)
+            simp only at hq
+            simp only [hq.2, if_true]
+            exact ih.mpr ⟨(qn, qr) :: qs, n2, post, rfl,
+              fun x hx => e2 x (List.mem_cons_of_mem _ hx), fun _ => e3 (by simp)⟩
 
-example : blockTimeout 10 [⟨false, 0, some 4⟩, ⟨false, 4, some 7⟩] = .timeout := by decide
-example : blockTimeout 10 [⟨false, 0, some 4⟩, ⟨false, 4, some 6⟩, ⟨true, 10, none⟩] = .ok := by decide
-example : blockTimeout 10 [⟨false, 11, some 0⟩] = .timeout := by decide
+-- ten sequential 3-unit sleeps under a duration of 100: the code returns Ok at 30 ...
+example : blockTimeout 100 [(0,false),(3,false),(6,false),(9,false),(12,false),(15,false),(18,false),(21,false),(24,false),(27,false),(30,true)] = (.ok, 30) := by decide
+-- ... while a loop that subtracts the time since the start from a shrinking budget in every iteration (the seeded
+-- refactoring; NOT the code) times out inside the duration: the theorem above discriminates
+example : (blockTimeoutBudget 100 [(0,false),(3,false),(6,false),(9,false),(12,false),(15,false),(18,false),(21,false),(24,false),(27,false),(30,true)]).1 = .timeout := by decide
+example : blockTimeout 10 [(0,false),(4,false),(11,true)] = (.timeout, 10) := by decide
+example : blockTimeout 10 [(11,false),(12,true)] = (.timeout, 11) := by decide
+example : blockTimeout 10 [(0,false)] = (.timeout, 10) := by decide
 
 end DustVerif.Timer
